@@ -790,6 +790,9 @@ Definition pr_sval (v : sval) : list token :=
 
 Definition pr_skv (e : skv) : list token := [tIn (fst e); tP KColon ":"] ++ pr_sval (snd e).
 
+(* the closing brace of a service block: "service s {}" stays on one line *)
+Definition rb_after {A} (l : list A) : token := T KRBrace "}" (match l with [] => false | _ => true end).
+
 Definition pr_stmt (s : stmt) : list token :=
   match s with
   | SSyntax v => [tIn "syntax"; tP KAssign "="; tP KStr v]
@@ -803,7 +806,7 @@ Definition pr_stmt (s : stmt) : list token :=
     | Some l => [tPn KAtServer "@server"; tP KLParen "("] ++ flat_map pr_skv l ++ [tPn KRParen ")"]
     | None => []
     end ++ [tIn "service"; tI n] ++ (if a then [tP KSub "-"; tI "api"] else []) ++ [tP KLBrace "{"] ++
-    flat_map pr_item its ++ [tPn KRBrace "}"]
+    flat_map pr_item its ++ [rb_after its]
   end.
 
 Definition print (a : api) : list token := flat_map pr_stmt a.
